@@ -4,7 +4,12 @@ Clauses decided (necessary conditions visible in the code's shape):
 R1 `BaseStep.terminate` is idempotent (all effects on the `not self.terminated` branch, the flag is set
    before the first suspension point), puts `TerminationToken(status)` on *every* output port
    (unconditional loop over the whole `get_output_ports()` map) and records the status
-   (`await self._set_status(status)`) on every path.
+   (`await self._set_status(status)`) on every path.  The in-memory status is never stale while the termination tokens
+   are visible: from a TerminationToken put reached before `self.status` was written no suspension point is reachable
+   before that write (a plain `self.status = status`, or an awaited self/super call -- followed through the resolved
+   call, bound 2 -- to methods that write first), and every `_set_status` of the Step class table assigns
+   `self.status = <its parameter>` on every path before its first suspension point (otherwise executor.run's final
+   FAILED/CANCELLED check, which runs as soon as the output ports delivered their tokens, misses a failed step).
 R2 every concrete `run()` of the Step class table: every path that reaches the normal exit -- also through
    an exception handler -- passes `await self.terminate(...)` (directly, through `super().run()` or a
    helper method, inlining bound 3); the terminate call is reachable at all; handlers for
@@ -48,6 +53,14 @@ the original test is always true after a termination token follows from the *val
 of a non-empty dict), not from the shape of the code; a rule "no path from the termination branch back to the port
 read" fires on the unchanged tree as well (the reviewed non-finding of DESIGN section 7), and telling `all(m)` from
 `all(m.values())` apart would be a frozen-text match.
+Re-examined (round 2) with the candidate "on the FAILED/CANCELLED termination branch no path returns to the port read":
+on the unchanged tree the termination branch's `else:` arm (token_map not empty) falls through to
+`if self.termination_map and all(self.termination_map): break`, whose false edge leads back to `input_port.get` -- the
+clause does not hold structurally today.  Folding the test needs (1) path-sensitivity (`token_map` non-empty on that arm,
+so the comprehension over it is non-empty) and (2) the truthiness of the keys, i.e. of the tag prefixes: `''` (the prefix
+of a top-level tag such as the termination token's own `'0'`) is falsy, so "keys are truthy" is a fact about the tags the
+translator generates, not about this function.  A three-valued evaluation gives *unknown* for both `all(m)` and
+`all(m.values())`; no sound structural rule separates them.  Kept undecided.
 """
 
 from __future__ import annotations
@@ -97,6 +110,7 @@ XSTEP = "streamflow.workflow.step.ExecuteStep"
 REDUCE = "streamflow.workflow.step._reduce_statuses"
 SFILE = "streamflow/workflow/step.py"
 EFILE = "streamflow/workflow/executor.py"
+CFILE = "streamflow/core/workflow.py"
 TFILE = "streamflow/workflow/transformer.py"
 FAILING = {"FAILED", "CANCELLED"}
 
@@ -238,7 +252,7 @@ def r1(ctx):
             method_call(c, "put") and isinstance(c.func.value, ast.Name) and c.func.value.id in vals and len(c.args) == 1 and is_term_token(c.args[0])
             for c in n.calls())]
     status_nodes = [n.id for n in g.nodes.values() if any(
-        self_call(c, "_set_status") and _awaited(c) and len(c.args) == 1 and is_param(f, c.args[0], st) for c in n.calls())]
+        self_call(c, "_set_status") and _awaited(c) and len(c.args) == 1 and _is_status_value(f, c.args[0], st) for c in n.calls())]
     effects = list(sets) + puts + status_nodes + [n.id for n in g.nodes.values() if any(method_call(c, "put") for c in n.calls())]
     # (a) idempotence: every effect lies on the branch where the flag was False
     ok, why = bool(tests) and bool(sets), "no test of self.terminated / flag never set"
@@ -288,6 +302,118 @@ def r1(ctx):
     ctx.ob("R1", "terminate records the status (`await self._set_status(status)`) on every path", bool(status_nodes) and bool(sets) and w is None,
            func=f, node=f.node, instance="terminate:set-status",
            message="terminate does not always record the termination status: the executor's FAILED/CANCELLED check cannot see it")
+    # (e) the in-memory status is not stale while the termination tokens are already visible: from a TerminationToken put that
+    # is reached before `self.status` was written, no suspension point may be reached before the write (a call that writes
+    # first -- `_set_status`, followed through the resolved call -- counts as the write)
+    term_puts = [n.id for n in g.nodes.values() if any(
+        method_call(c, "put") and len(c.args) == 1 and is_term_token(c.args[0]) for c in node_calls(g, n))]
+    W = _status_write_nodes(p, f, st)
+    before_write = g.reach([g.entry], avoid=W, include_src=True)
+    ok, why, wit = True, "", []
+    for x in sorted(term_puts):
+        if x not in before_write or not ok:
+            continue
+        for s in sorted(g.reach([x], avoid=W) & susp):
+            path = g.path(x, [s], avoid=W)
+            ok = False
+            why = f"`{g.nodes[s].text(70)}` can suspend after `{g.nodes[x].text(50)}` while self.status still holds the old value"
+            for h, hp in _status_callees(p, f, g.nodes[s], st):
+                hw = _writes_status_first(p, h, hp)
+                if not hw[0]:
+                    why += f" ({h.qualname}: {hw[1]})"
+            wit = g.describe(path) if path else []
+            break
+    ctx.ob("R1", "terminate: no suspension point between the TerminationToken puts and the write of self.status", ok, func=f, node=f.node,
+           instance="terminate:status-before-suspension",
+           message=f"BaseStep.terminate: {why}: the executor's final FAILED/CANCELLED check (run after the output ports delivered their "
+                   "termination tokens) can miss a failed step", witness=wit)
+    # (f) every `_set_status` of the Step class table assigns `self.status` before it can suspend
+    setters = [x for x in p.overrides(STEP, "_set_status") if not x.is_abstract]
+    ctx.require(bool(setters), "C04.R1: Step._set_status vanished")
+    for h in setters:
+        hps = [x for x in h.params if x != "self"]
+        ctx.require(len(hps) >= 1, f"C04.R1: {h.qualname} takes no status")
+        hok, hwhy, hwit = _writes_status_first(p, h, hps[0])
+        ctx.ob("R1", f"{h.cls.name}._set_status assigns self.status on every path before its first suspension point", hok, func=h, node=h.node,
+               instance=f"{h.cls.name}._set_status:write-first",
+               message=f"{h.qualname}: {hwhy}: after terminate() put the termination tokens the in-memory status is stale for a database "
+                       "round trip, and StreamFlowExecutor.run's FAILED/CANCELLED check can pass although the step failed", witness=hwit)
+
+
+def _status_callees(p, f, node, st):
+    """(callee, callee parameter) for every awaited `self.m(..)` / `super().m(..)` of the CFG node that passes the
+    never-rebound parameter `st` of `f` (also through a local alias) to a resolved, concrete method."""
+    out = []
+    for c in node_calls(f.cfg, node):
+        if not _awaited(c) or not (self_call(c) or super_call(c)):
+            continue
+        qs = p.resolve_call(f, c, fanout=True)
+        callees = [p.functions[q] for q in qs if q in p.functions]
+        if not callees or len(callees) != len(qs) or any(h.is_abstract for h in callees):
+            continue
+        for h in callees:
+            hps = [x for x in h.params if x != "self"]
+            for i, a in enumerate(c.args):
+                if i < len(hps) and not isinstance(a, ast.Starred) and _is_status_value(f, a, st):
+                    out.append((h, hps[i]))
+            for k in c.keywords:
+                if k.arg in hps and _is_status_value(f, k.value, st):
+                    out.append((h, k.arg))
+    return out
+
+
+def _is_status_value(f, e, st) -> bool:
+    if is_param(f, e, st):
+        return True
+    os_ = orig(f, e) if isinstance(e, ast.Name) else []
+    return bool(os_) and all(is_param(f, o, st) for o in os_)
+
+
+def _status_write_nodes(p, f, st, depth: int = 2, stack: tuple = ()) -> set[int]:
+    """CFG nodes of `f` that make `self.status` the value of parameter `st` before they can suspend: a plain
+    `self.status = st` and an awaited self/super call handing `st` to methods that all write first themselves."""
+    g = f.cfg
+    out = set()
+    for n in g.nodes.values():
+        a = n.ast
+        if n.kind == "stmt" and isinstance(a, (ast.Assign, ast.AnnAssign)) and a.value is not None and not n.has_await():
+            tgts = a.targets if isinstance(a, ast.Assign) else [a.target]
+            if any(is_self_attr(t, "status") for t in tgts) and _is_status_value(f, a.value, st):
+                out.add(n.id)
+                continue
+        if depth <= 0 or n.kind not in ("stmt", "return") or sum(isinstance(x, ast.Await) for x in n.walk()) != 1:
+            continue
+        cs = _status_callees(p, f, n, st)
+        if cs and all(h.qualname not in stack and _writes_status_first(p, h, hp, depth - 1, stack + (f.qualname,))[0] for h, hp in cs):
+            out.add(n.id)
+    return out
+
+
+def _writes_status_first(p, h, param, depth: int = 1, stack: tuple = ()):
+    """(ok, why, witness): `h` assigns `self.status = <param>` on every normally finishing path and cannot suspend before it."""
+    cache = p.__dict__.setdefault("_c04_status_first", {})
+    key = (h.qualname, param, depth)
+    if key in cache and not stack:
+        return cache[key]
+    g = h.cfg
+    W = _status_write_nodes(p, h, param, depth, stack)
+    res = (True, "", [])
+    if not W:
+        res = (False, f"never assigns `self.status = {param}`", [])
+    else:
+        live = g.reach([g.entry], include_src=True)
+        early = sorted(s for s in g.suspension_nodes() if s in live and s not in W and not g.dominates(W, s))
+        if early:
+            path = g.path(g.entry, [early[0]], avoid=W)
+            wn = g.nodes[min(W)]
+            res = (False, f"`{g.nodes[early[0]].text(70)}` can suspend before `{wn.text(50)}`", g.describe(path) if path else [])
+        else:
+            esc = g.escape(g.entry, W, targets=[g.exit])
+            if esc is not None:
+                res = (False, "a path finishes without assigning self.status", g.describe(esc))
+    if not stack:
+        cache[key] = res
+    return res
 
 
 # --------------------------------------------------------------------------- R2
@@ -1396,9 +1522,9 @@ def r6(ctx):
 
 
 RULES = [("R1", r1), ("R2", r2), ("R3", r3), ("R4", r4), ("R5", r5), ("R6", r6)]
-# R2: 15 run() + 10 handlers; R3: 12 while loops + 1 re-arming helper (ExecuteStep._check_inputs)
+# R1: 4 terminate clauses + token/status ordering + 1 _set_status; R2: 15 run() + 10 handlers; R3: 12 while loops + 1 re-arming helper (ExecuteStep._check_inputs)
 # R4: 11 executor instances; R5: 2 recording sites + return + 3 _run_job handlers
-FLOORS = {"R1": 4, "R2": 25, "R3": 13, "R4": 11, "R5": 3, "R6": 5}
+FLOORS = {"R1": 6, "R2": 25, "R3": 13, "R4": 11, "R5": 3, "R6": 5}
 
 _S = "streamflow.workflow.step."
 _TERM = f"{BASE}.terminate"
@@ -1416,6 +1542,27 @@ VARIANTS = [
     V("terminate skips ports when cancelled", SFILE, _TERM, "port.put(TerminationToken(status))", "if status != Status.CANCELLED:\n                port.put(TerminationToken(status))", "R1"),
     V("terminate does not record the status", SFILE, _TERM, "await self._set_status(status)\n        ", "", "R1"),
     V("terminate records the status only when failed", SFILE, _TERM, "await self._set_status(status)", "if status == Status.FAILED:\n            await self._set_status(status)", "R1"),
+    # ---- R1 (e)/(f): the in-memory status is written before anything can suspend once the termination tokens are out
+    V("_set_status assigns self.status after the database write", CFILE, f"{STEP}._set_status",
+      "self.status = status\n    if self.persistent_id is not None:\n        await self.workflow.context.database.update_step(self.persistent_id, {'status': status.value})",
+      "if self.persistent_id is not None:\n        await self.workflow.context.database.update_step(self.persistent_id, {'status': status.value})\n    self.status = status", "R1"),
+    V("_set_status assigns self.status only for persisted steps", CFILE, f"{STEP}._set_status",
+      "self.status = status\n    if self.persistent_id is not None:", "if self.persistent_id is not None:\n        self.status = status", "R1"),
+    V("_set_status stores a fixed status", CFILE, f"{STEP}._set_status", "self.status = status", "self.status = Status.COMPLETED", "R1"),
+    V("terminate suspends between the puts and the status write", SFILE, _TERM, "await self._set_status(status)", "await asyncio.sleep(0)\n        await self._set_status(status)", "R1"),
+    V("terminate suspends inside the put loop", SFILE, _TERM, "port.put(TerminationToken(status))", "port.put(TerminationToken(status))\n            await asyncio.sleep(0)", "R1"),
+    V("terminate persists the status itself before the in-memory write", SFILE, _TERM, "await self._set_status(status)",
+      "if self.persistent_id is not None:\n            await self.workflow.context.database.update_step(self.persistent_id, {'status': status.value})\n        self.status = status", "R1"),
+    V("benign: terminate records the status before it puts the tokens", SFILE, _TERM,
+      "for port in self.get_output_ports().values():\n            port.put(TerminationToken(status))\n        await self._set_status(status)",
+      "await self._set_status(status)\n        for port in self.get_output_ports().values():\n            port.put(TerminationToken(status))", None),
+    V("benign: terminate writes the status itself, then persists it", SFILE, _TERM, "await self._set_status(status)",
+      "final = status\n        self.status = final\n        await asyncio.sleep(0)\n        await self._set_status(final)", None),
+    V("benign: _set_status with a temporary and a guard clause", CFILE, f"{STEP}._set_status",
+      "if self.persistent_id is not None:\n        await self.workflow.context.database.update_step(self.persistent_id, {'status': status.value})",
+      "pid = self.persistent_id\n    new_status = status\n    if pid is None:\n        return\n    await self.workflow.context.database.update_step(pid, {'status': new_status.value})", None),
+    V("benign: _set_status with an annotated assignment and logging", CFILE, f"{STEP}._set_status", "self.status = status",
+      "logger.debug('status change')\n    current: Status = status\n    self.status = current", None),
     # ---- R2
     V("final terminate deleted in ScatterStep.run", SFILE, _S + "ScatterStep.run", "\n    await self.terminate(self._get_status(status))", "", "R2", control=True),
     V("terminate not awaited in GatherStep.run", SFILE, _S + "GatherStep.run", "await self.terminate(self._get_status(status))", "self.terminate(self._get_status(status))", "R2"),
